@@ -173,6 +173,8 @@ package car
 //@   ensures skipped_block_is_there [C02]: err == nil ==> pos(br.r) <= lim(br.r) || pos(br.r) <= sbase(br.r) + send(br.r)
 
 //@ func LoadIndex
+//@   check a_clean_end_loads_the_records [C03,C11]: executed("varint.ReadUvarint#0") && verr == io.EOF ==> executed("Index.Load#0")
+//@   check a_cid_at_the_limit_is_not_too_large [C03,C04]: executed("cid.CidFromReader#0") && cerr0 == nil && !executed("Seeker.Seek#2") ==> cidLen0 > o.MaxIndexCidSize && (o.StoreIdentityCIDs || mhtype(c0) != 0)
 //@   let v1h, v1herr := call[carv1.ReadHeader#1]
 //@   let _, v2herr := call[Header.ReadFrom#0]
 //@   let loaderr := call[Index.Load#0]
@@ -357,6 +359,8 @@ package car
 //@   let terr := call[traverse#0]
 
 //@ func (*traversalCar).WriteTo
+//@   call[Writer.Write#0] assert only_after_the_payload_was_written [C15,C16]: v1err == nil && herr == nil
+//@   call[index.WriteTo#0] assert only_after_the_payload_was_written [C15,C16]: v1err == nil && herr == nil
 //@   modifies wn(w), tc.size
 //@   alloc[0] bounded_by tc.opts.IndexPadding
 //@   let hn, herr := call[traversalCar.WriteV2Header#0]
